@@ -26,7 +26,8 @@ Centres == {<<0, 0>>, <<20, 10>>}          \* km (or 1/100 degree)
 Axes    == {50, 30}                        \* km (or 1/100 degree)
 Eccs    == {6, 8}                          \* tenths: 0.6 -> b = 0.8 a, 0.8 -> b = 0.6 a
 SectionDepths == <<40, 80, 120>>           \* km
-MinDepth == 10
+CONSTANT MinDepth                          \* km: 10 (above the first cross section: the plume has a head) or 60 (below it: no head, and
+                                           \* the part of the table above the min depth does not belong to the plume)
 MaxDepth == 150
 
 Section == [c : Centres, a : Axes, e : Eccs, ang : AngleSet]
@@ -50,7 +51,7 @@ EllipseAt(t, d) ==
   LET n == Len(t) IN
   IF d < SectionDepths[1]
   THEN [cx |-> t[1].c[1], cy |-> t[1].c[2], a |-> t[1].a, e |-> t[1].e, ang |-> t[1].ang,
-        z |-> SectionDepths[1] - d, c |-> SectionDepths[1] - MinDepth, branch |-> "cap"]
+        z |-> SectionDepths[1] - d, c |-> IF SectionDepths[1] > MinDepth THEN SectionDepths[1] - MinDepth ELSE 1, branch |-> "cap"]
   ELSE IF d >= SectionDepths[n]
   THEN [cx |-> t[n].c[1], cy |-> t[n].c[2], a |-> t[n].a, e |-> t[n].e, ang |-> t[n].ang, z |-> 0, c |-> 1, branch |-> "below"]
   ELSE LET i == CHOOSE j \in 1..(n - 1) : SectionDepths[j] <= d /\ d < SectionDepths[j + 1]
@@ -90,7 +91,7 @@ Doc(t) ==
                  MinDepth * Km, MaxDepth * Km, <<>>, <<CUniform(<<1>>, "replace")>>, <<>>, <<>>) >>)
 
 ProbeXY == {<<x, y>> : x, y \in {-45, -30, -10, 0, 15, 25, 40, 60}}
-ProbeDepths(n) == {5, 10, 12, 25, 39, 40, 150, 151, 130} \cup (IF n >= 2 THEN {50, 53, 60, 70, 77, 80} ELSE {})
+ProbeDepths(n) == {5, 10, 12, 25, 39, 40, 150, 151, 130, 59, 61} \cup (IF n >= 2 THEN {50, 53, 60, 70, 77, 80} ELSE {})
                     \cup (IF n >= 3 THEN {90, 100, 104, 110, 119, 120} ELSE {})
 
 Row(p, d) == IF Sph THEN <<R - d * Km, Rat(p[1] + LonOff, 100), Rat(p[2], 100), d * Km, p[1], p[2]>>
@@ -109,7 +110,7 @@ DepthTable(t, d) ==
 
 Behaviour(t) ==
   LET ds == SetToSeq(ProbeDepths(Len(t))) IN
-  [id |-> <<"plume", t, LonOff>>, labels |-> <<"plume-extent", "n" \o ToString(Len(t)), IF Sph THEN "spherical" ELSE "cartesian", "lon-offset-" \o ToString(LonOff)>>,
+  [id |-> <<"plume", t, LonOff, MinDepth>>, labels |-> <<"plume-extent", "min-depth-" \o ToString(MinDepth), "n" \o ToString(Len(t)), IF Sph THEN "spherical" ELSE "cartesian", "lon-offset-" \o ToString(LonOff)>>,
    steps |-> <<[op |-> "create", h |-> 1, wb |-> Doc(t)]>> \o [i \in 1..Len(ds) |-> DepthTable(t, ds[i])]]
 
 VARIABLE table
